@@ -142,6 +142,9 @@ def hostile_value(r, pieces=PIECES):
         v = "".join(r.choice(LINES) + r.choice(["\n", "\n", "\r\n", "\r"]) for _ in range(r.randint(1, 3)))
         if not v.startswith(('"', "'", ":", "not")):
             return v
+    if pieces is PIECES and r.random() < 0.06:
+        # white space, then what would be special in first position (only a value that STARTS with a quote is taken as quoted)
+        return r.choice([" ", "\t", "\n", "  "]) + r.choice(['"', "'", ":", "not"]) + r.choice(["x", 'y"; discard; stop', "gone'", ""])
     while True:
         v = "".join(r.choice(pieces) for _ in range(r.randint(1, 4)))
         # a leading quote is "already quoted" for the factory (outside the claim); a leading ':' makes an action
